@@ -142,9 +142,34 @@ def gen(rng, cid, plugin):
                 newcur = exact_cur1 if r == tgt else other_cur1[r]
             ops.append({"op": "write", "cg": r, "file": "memory.current", "text": "%d\n" % newcur})
         ticks.append({"step_ns": 10**9, "ops": ops})
+    base = "wl"
+    if not boundary and rng.random() < 0.25:
+        # one level more: the ranked siblings' parent is itself one of two claimants below `top`, so what the parent gets (not what
+        # it claims) is what its children share - P(c) = R(c) * min(1, P(parent) / sum of the siblings' claims), recursively
+        base = "top/wl"
+        ren = lambda r: r if r == "/" else "top/" + r
+        cgs = {ren(k): c for k, c in cgs.items()}
+        for t in ticks:
+            for o in t["ops"]:
+                o["cg"] = ren(o["cg"])
+        if gap:
+            gap = (gap[0], ren(gap[1]), gap[2])
+        args["cgroup"] = "top/" + args["cgroup"]
+        r_wl = rng.choice([1 << 30, 6 << 30, 1 + rnd_size(rng, mode)])
+        cgs["top/wl"]["files"]["memory.low"] = "%d\n" % r_wl
+        cgs["top/wl"]["files"]["memory.min"] = "0\n"
+        cgs["top"] = W.cgroup(current=1 << 40, low=r_wl // rng.choice([1, 2, 3, 3]))
+        cgs["top/batch"] = W.cgroup(current=1 << 30, pids=[99], low=rng.choice([0, r_wl // 2, r_wl, 3 * r_wl]))
+        if rng.random() < 0.6:
+            # the siblings' claims together come to 0.3 - 1.2 times the parent's claim, each in its own proportion to its usage
+            tot = int(r_wl * rng.uniform(0.3, 1.2))
+            ws = [rng.uniform(0.1, 1) for _ in names]
+            for nm, wgt in zip(names, ws):
+                cgs["top/wl/" + nm]["files"]["memory.low"] = "%d\n" % int(tot * wgt / sum(ws))
+                cgs["top/wl/" + nm]["files"]["memory.min"] = "0\n"
     # nobody dies: every kill fails, so the same sibling set is ranked on every tick and fallback order is visible
     scn = KG.base_scn(cid, cgs, KG.kill_config(plugin, args), ticks=ticks, proc=proc, kill={"default": "ESRCH"})
-    return core.Case(cid, [scn], {"plugin": plugin, "args": args, "mode": mode, "gap": gap})
+    return core.Case(cid, [scn], {"plugin": plugin, "args": args, "mode": mode, "gap": gap, "base": base})
 
 
 def cases(seed, tier):
@@ -170,7 +195,7 @@ def judge(case, results):
     for ti, t in enumerate(scn["ticks"]):
         w.apply(t.get("ops"))
         view = CG.View(w.snapshot(), params)
-        roots = P.resolve_many(["wl/*"], view.w.dirs())
+        roots = P.resolve_many([case.meta.get("base", "wl") + "/*"], view.w.dirs())
         temporal = hist.step(view, roots, ti)
         inv = invs[ti] if ti < len(invs) else None
         if inv is None:
@@ -214,6 +239,8 @@ def judge(case, results):
         v.count("reached_by_descent_cases")
     if case.meta.get("gap"):
         v.count("sampling_gap_cases")
+    if case.meta.get("base", "wl") != "wl":
+        v.count("three_level_protection_cases")
     v.nontrivial = strict > 0
     v.sig = core.scn_hash(scn)
     return v
@@ -223,4 +250,4 @@ def sample(case, v):
     s = case.scns[0]
     return {"case": case.id, "plugin": case.meta["plugin"], "args": case.meta["args"], "value_mode": case.meta["mode"],
             "siblings": {k: {f: c["files"][f].strip() for f in ("memory.current", "memory.low", "memory.min", "memory.swap.current")}
-                         for k, c in s["cgroups"].items() if k.startswith("wl/")}, "observed": v.stats}
+                         for k, c in s["cgroups"].items() if k.startswith(case.meta.get("base", "wl") + "/")}, "observed": v.stats}
